@@ -87,6 +87,9 @@ class Ref:
         self.max_depth = 30
         self.cycle_marker = None   # if set: a re-entered template yields this marker instead of raising Cycle
         self.full_body = set()     # templates whose body is expanded fully (flagged templates on non-en wikis)
+        # C13 only (both default to the behaviour every other user of this class relies on):
+        self.hook_verbatim = False   # True: a hook result is the expansion as is (no newline before a list marker)
+        self.post_on_empty = False   # True: post is also shown an empty expansion
 
     def hit(self, r):
         self.rules[r] = self.rules.get(r, 0) + 1
@@ -155,6 +158,7 @@ class Ref:
             t = None
             if self.hook is not None:
                 t = self.hook(name, ht)
+            from_hook = t is not None
             if t is None:
                 if name not in self.lib:
                     self.hit("missing-template-link")
@@ -175,12 +179,17 @@ class Ref:
                     self.hit("template-expanded")
                     t = self.ev(self.lib[name], ht, stack + (name,), full or name in self.full_body)
             t2 = nl(t)
+            if t2 != t and from_hook and self.hook_verbatim:
+                self.hit("CLASS:template_fn-result-starts-with-list-marker")
+                t2 = t
             if t2 != t:
                 self.hit("newline-prepended")
             t = t2
-            if self.post is not None and t:
+            if self.post is not None and (t or self.post_on_empty):
                 r = self.post(name, ht, t)
                 if r is not None:
+                    if not t:
+                        self.hit("CLASS:post_template_fn-replaces-empty-expansion")
                     t = r
             return t
         if not self.pf:
